@@ -202,6 +202,14 @@ func runMain(args []string) {
 				}
 			}
 		} else {
+			// every period-2 repetition of single-byte units, a sample of the rest
+			for _, a := range units {
+				for _, b := range units {
+					if len(a) == 1 && len(b) == 1 && a != b {
+						pairs = append(pairs, a+b)
+					}
+				}
+			}
 			for i := 0; i < 200; i++ {
 				pairs = append(pairs, units[r.intn(len(units))]+units[r.intn(len(units))])
 			}
